@@ -2,7 +2,7 @@
 carry the control half + whole-system scenarios on the real binaries for the data half."""
 import json, os, sys
 sys.path.insert(0, os.path.join(os.path.dirname(os.path.abspath(__file__)), "..", "bin"))
-import vlib, syslib, ctllib
+import vlib, syslib, ctllib, rebuildlib
 from ctllib import ev, fl, boot, add, world
 
 VERDICT_STEPS = {"check_identical", "read_verify", "compare_clone", "poll_clone"}
@@ -63,6 +63,10 @@ def main(ctx, replay=None):
 
     if replay:
         sc = json.load(open(replay))
+        if sc.get("data_half"):
+            rc = rebuildlib.replay(ctx, pid, sc)
+            ctx.cleanup()
+            sys.exit(rc)
         outs = syslib.run(ctx, [dict(rf=sc["rf"], steps=sc["steps"])], tag="replay")
         for s in outs[0]["steps"]:
             print(s["op"], s["ok"], s.get("note", ""), json.dumps({k: v for k, v in (s.get("data") or {}).items() if k != "images"})[:400])
@@ -107,6 +111,10 @@ def main(ctx, replay=None):
         vlib.violation(ctx, dict(property=pid, kind="control half: oracle(s) %s fail on the real controller" % sorted(b["fails"]),
                                  rf=c["rf"], world=c["world"], events=c["events"],
                                  observed=[{k: v for k, v in ob.items() if k != "reps"} for ob in couts[b["case"]]["obs"]]), suffix="-ctl")
+    # data half: Block.Rebuild model vs two in-process replica.Server instances (harness/cmd/rebuild)
+    dviol, dstats = rebuildlib.run_data_half(ctx, pid, quick)
+    for v in dviol:
+        vlib.violation(ctx, v["replay"], nofail=v["nofail"], suffix=v["suffix"])
     if not ctx.violations and (ctl_diffs or not proof["ok"]):
         if ctl_diffs:
             b = ctl_diffs[0]
@@ -130,13 +138,20 @@ def main(ctx, replay=None):
                  traces_validated_against_impl=len(ccases), system_scenarios=len(S), verdict_steps=verdict_steps,
                  acknowledged_writes_during_scenarios=acked, control_half_differences=len(ctl_diffs),
                  theorems=proof.get("theorems", []), exhaustive=False)
+    extra.update(dstats)
+    extra["evaluations"] += dstats["data_half_evaluations"]
+    extra["distinct_nontrivial"] += dstats["data_half_distinct_nontrivial"]
     samples = [dict(name=sc["name"], rf=sc["rf"], steps=sc["steps"][:14]) for sc in S[:2]] + [dict(control_half=ccases[0]["events"])]
     assumptions = {
         "C07": ["proved: the controller half (promotion only after chain comparison from the checkpoint up, counter copied, at most one WO, WO never read)",
-                "NOT proved, exercised only: that ssync's file copy plus Reload/UpdateLUNMap under concurrent writes yields byte-identical images (data half); the T3 scenarios compare every RW replica's live image, every snapshot image from the head down, revision counter and checkpoint, and the live image against all acknowledged writes",
-                "ssync / sparse-tools and ext4 hole semantics are trusted"],
+                "proved on the two-replica model Block.Rebuild (data half): for every schedule of block-aligned foreground writes, in-place file copies above the sync point (every block of every closed file copied at least once), asynchronous holes, then Reload and any interleaving of writes of any alignment with the phases of UpdateLUNMap, the live images and every retained user-created snapshot from the sync point upward are equal and the destination's block map is well-formed (C07_rebuild_converges); automatic snapshots agree wherever no newer source member has an extent",
+                "hypotheses of that theorem that the real system can violate are refuted in the model and reproduced on real replicas: unaligned writes before the Reload (finding wo-rmw-stale) and a destination that wrote on its own after its sync point (finding diverged-hole-below-syncpoint); both are listed in known_findings.txt",
+                "model tied to the code by harness/cmd/rebuild: two real replica.Server instances, the harness's sparse copy stands in for ssync; not modelled: snapshot/delete during the rebuild, ssync's wire protocol, the revision counter beyond pass-through",
+                "the T3 scenarios on the real binaries (real ssync, real controller) compare every RW replica's live image, every snapshot image from the head down, revision counter and checkpoint, and the live image against all acknowledged writes",
+                "ext4 extent/hole semantics are trusted"],
         "C19": ["proved: the controller half (RW only after a readable, non-error clone status; error => removed and Start fails)",
-                "NOT proved, exercised only: CloneReplica's copy (image of the clone equals snapshot S, counter equals the one recorded for S, status completed only then); the T3 scenario samples the clone's status and the controller's view every 20 ms until it is RW",
+                "proved on the two-replica model Block.Rebuild (data half): after the copy of S's chain, UpdateCloneInfo and Reload the clone's image equals S's image, its block map is well-formed and its counter is the one recorded for S, whatever the source writes meanwhile (C19_clone_image); tied to the code by harness/cmd/rebuild (two real replica.Server instances)",
+                "the T3 scenario (real binaries, real ssync) samples the clone's status and the controller's view every 20 ms until it is RW, then compares images and counter",
                 "timing of the 2 s polls is not modelled"],
     }[pid]
     vlib.write_evidence(ctx, proof, extra, assumptions, samples)
